@@ -251,6 +251,7 @@ class Fn:
         self.const = const
         self.names = set()
         self.notes = []
+        self.owner = None             # name of the first parameter of a method declared with `mutates`
         self.locals = set()           # parameters and every name the function binds (Python: local for the whole body)
         if node is not None:
             for n in ast.walk(node):
@@ -705,6 +706,22 @@ class Fn:
                     self.err(e, "struct.pack: %d values for %d codes" % (len(vs), n))
                 return self.hoist(e, "Py.structPackI %s [%s]" % (fmt, ", ".join(v.s for v in vs)), BYTES)
             self.err(e, "struct.%s is not in the subset" % f.attr)
+        if isinstance(f, ast.Attribute) and f.attr == "count" and len(e.args) == 1 and isinstance(e.args[0], ast.Constant) \
+           and isinstance(e.args[0].value, str) and len(e.args[0].value) == 1 and self.is_bin_slice(f.value):
+            # `bin(x)[lo:hi].count('c')`: the characters of Python's binary literal of x ('-' sign, '0b', digits, most
+            # significant first), sliced (bounds >= 0 shown), and the occurrences of one character counted
+            if "bin" in self.locals or "bin" in env or self.mod.binds("bin"):
+                self.err(e, "the name bin is re-bound in this function or module")
+            sub = f.value
+            x = self.expr(sub.value.args[0], env)
+            if x.t != INT:
+                self.err(e, "bin() of %s" % x.t)
+            lo = self.expr(sub.slice.lower, env) if sub.slice.lower is not None else V("0", INT, 0, 0)
+            hi = self.expr(sub.slice.upper, env)
+            for b_ in (lo, hi):
+                if b_.t != INT or b_.lo is None or b_.lo < 0:
+                    self.err(e, "slice bound %s of bin(...): cannot show it is >= 0; declare `ranges` in the SRC table" % b_.s)
+            return V("(Py.strCount '%s' (Py.sliceI (Py.bin %s) %s %s))" % (e.args[0].value, x.s, lo.s, hi.s), INT, 0, None)
         # calls of other translated functions / constructors
         target = None
         selfcall = False
@@ -718,6 +735,7 @@ class Fn:
         if target in self.mod.funcs:
             sig = self.mod.funcs[target]
             args = []
+            argv = {}
             pyargs = list(e.args)
             for pname, pt in sig["params"]:
                 if pt[0] == "rec":
@@ -742,10 +760,19 @@ class Fn:
                     if a.t != pt[0]:
                         self.err(e, "argument %s of %s: %s expected, %s given" % (pname, target, pt[0], a.t))
                     args.append(a.s)
+                    argv[pname] = a
             if pyargs:
                 self.err(e, "too many arguments for %s" % target)
+            if sig.get("mutates"):
+                self.err(e, "%s changes its object; calling it is not in the subset" % target)
             if sig.get("ranges"):
-                self.err(e, "%s is translated under declared parameter ranges; calling it is not in the subset" % target)
+                # the ranges are hypotheses of the callee's definition: the call must discharge them, which the translator
+                # does for arguments whose interval it knows to lie inside the range (`by decide` on the constant bounds)
+                for key, (lo, hi) in sig["ranges"].items():
+                    if key not in argv or argv[key].lo is None or argv[key].hi is None or argv[key].lo != argv[key].hi \
+                       or not (lo <= argv[key].lo <= hi):
+                        self.err(e, "%s is translated under a declared range for %s; the call does not pass a constant inside it" % (target, key))
+                    args.append("(by decide)")
             text = "%s %s" % (sig["lean"], " ".join(args))
             if sig["monadic"]:
                 return self.hoist(e, text, sig["ret"])
@@ -774,6 +801,12 @@ class Fn:
                     name, ", ".join(fl for fl, _ in fields)))
                 return V("(%s)" % ", ".join(v.s for v in vals), "rec:" + name + ":" + ",".join(fl for fl, _ in fields))
         self.err(e, "call of %s is not in the subset" % ast.unparse(f))
+
+    @staticmethod
+    def is_bin_slice(e):
+        return (isinstance(e, ast.Subscript) and isinstance(e.slice, ast.Slice) and e.slice.step is None
+                and e.slice.upper is not None and isinstance(e.value, ast.Call) and isinstance(e.value.func, ast.Name)
+                and e.value.func.id == "bin" and len(e.value.args) == 1 and not e.value.keywords)
 
     def closed_float(self, e):
         """a closed arithmetic expression over int / float literals (no names)"""
@@ -863,6 +896,8 @@ class Fn:
             return "Bytes"
         if t.startswith("rec:"):
             return " × ".join(["Int"] * len(t.split(":")[2].split(",")))
+        if t.startswith("tup:"):
+            return " × ".join(t[4:].split(";"))
         return t
 
     def tuple_of(self, names, env):
@@ -973,6 +1008,15 @@ class Fn:
             if isinstance(s.value, ast.Tuple):
                 self.err(s, "returning a tuple is not in the subset")
             v = self.expr(s.value, env)
+            if self.spec.get("mutates"):
+                # a method that changes tables of its object: the translation returns the final tables (value semantics);
+                # the Python return value must be a constant, it is dropped
+                if not isinstance(s.value, ast.Constant):
+                    self.err(s, "a method declared with `mutates` must return a constant")
+                keys = [self.owner + "." + a for a in self.spec["mutates"]]
+                self.notes.append("the method changes %s in place; the translation RETURNS their final values as a tuple "
+                                  "(the Python return value `%s` is dropped)" % (", ".join(keys), ast.unparse(s.value)))
+                v = V("(%s)" % ", ".join(env[k_].s for k_ in keys), "tup:" + ";".join(self.ltype(env[k_].t) for k_ in keys))
             return self.flush(self.result(v))
         if isinstance(s, ast.Raise):
             if s.exc is None or s.cause is not None:
@@ -1039,13 +1083,15 @@ class Fn:
         env[key] = V(n, v.t, v.lo, v.hi, v.n, v.ltlen, v.elo, v.ehi, v.rec)
         return "let %s : %s := %s\n" % (n, self.ltype(v.t), v.s)
 
-    def target_key(self, t, env):
+    def target_key(self, t, env, sub=False):
         if isinstance(t, ast.Name):
             return t.id
         if isinstance(t, ast.Attribute) and isinstance(t.value, ast.Name) and t.value.id in env and env[t.value.id].t == "rec":
             key = t.value.id + "." + t.attr
             if key not in env:
                 self.err(t, "attribute %s is not declared for %s in the SRC table" % (t.attr, t.value.id))
+            if sub and t.value.id == self.owner and t.attr in self.spec.get("mutates", ()):
+                return key            # item assignment on a table the SRC entry declares as changed by the method
             self.err(t, "assignment to the attribute %s (a method that changes its object) is not in the subset" % key)
         self.err(t, "assignment target %s is not in the subset" % ast.unparse(t))
 
@@ -1084,7 +1130,7 @@ class Fn:
                 text += self.bind(key, V("(Py.intAt %s %d)" % (v.s, i), INT, v.elo, v.ehi), env)
             return self.flush(text) + self.block(rest, env, k)
         if isinstance(target, ast.Subscript):
-            key = self.target_key(target.value, env)
+            key = self.target_key(target.value, env, sub=True)
             if key not in env:
                 self.err(s, "item assignment to unbound %s" % key)
             seq = env[key]
@@ -1103,13 +1149,19 @@ class Fn:
                 i = self.expr(target.slice, env)
             else:
                 i = self.expr(target.slice, env)
+                npre = len(self.pre)
                 v = self.expr(value, env)
+                value_raises = len(self.pre) > npre
             if i.t != INT:
                 self.err(s, "index of type %s" % i.t)
             if op is not None:
                 if not self.safe_index(seq, target.value, i):
-                    self.err(s, "cannot show that index %s is in range for %s[...] %s=" % (i.s, key, type(op).__name__))
-                cur = V("(Py.intAt %s %s)" % (seq.s, i.s), INT, seq.elo, seq.ehi)
+                    # t[i] op= v: Python reads t[i] (IndexError / negative index rules), evaluates v, then stores
+                    if value_raises:
+                        self.err(s, "augmented item assignment whose value can raise is not in the subset")
+                    cur = self.hoist(s, "Py.getItem %s %s" % (seq.s, i.s), INT, lo=seq.elo, hi=seq.ehi)
+                else:
+                    cur = V("(Py.intAt %s %s)" % (seq.s, i.s), INT, seq.elo, seq.ehi)
                 v = self.binop(s, op, cur, v)
             if v.t != INT:
                 self.err(s, "item assignment of %s" % v.t)
@@ -1680,6 +1732,18 @@ def translate_function(mod, spec):
             env[key] = V(v.s, INT, lo, hi)
             binders.append("(h_%s : %s ≤ %s ∧ %s ≤ %s)" % (v.s, lit(lo), v.s, v.s, lit(hi)))
             fn.notes.append("translated for %d <= %s <= %d only (hypothesis h_%s)" % (lo, key, hi, v.s))
+        if spec.get("mutates"):
+            if not params or params[0][1][0] != "rec":
+                raise TranslationError("%s: `mutates` needs a method whose first parameter is declared as an object" % spec["func"])
+            fn.owner = params[0][0]
+            keys = []
+            for a_ in spec["mutates"]:
+                key = fn.owner + "." + a_
+                if key not in env or env[key].t != INTS:
+                    raise TranslationError("%s: `mutates` names %s, which is not a declared int-list attribute" % (spec["func"], key))
+                keys.append(key)
+            # the tables are reached only through `self.<attr>` (any other name for them ends the permission to assign)
+            fn.set_own(env, keys)
         def fall(e2):
             raise TranslationError("%s:%d %s: control can reach the end of the function (returns None): not in the subset" % (
                 mod.relpath, node.end_lineno or node.lineno, spec["func"]))
@@ -1702,7 +1766,7 @@ def translate_function(mod, spec):
     lean = "%s\ndef %s %s : %s :=\n%s" % (doc, lean_name, " ".join(binders), rett, indent(text))
     mod.funcs[spec["func"] if "prefix_upto" not in spec and "from_var" not in spec else "#" + lean_name] = {
         "lean": lean_name, "params": params, "ret": fn.rettype, "monadic": monadic,
-        "ranges": dict(spec.get("ranges", {}))}
+        "ranges": dict(spec.get("ranges", {})), "mutates": list(spec.get("mutates", ()))}
     mod.defs.append(lean)
     return lean_name, monadic
 
